@@ -67,7 +67,8 @@ structure InvV (c0 : Cfg) (v : VSys) : Prop where
   gu : ∀ i g, inU v i g → g.cand ≠ 0 ∧ g.term ≤ (v.nodes i).term ∧
           (g.term = (v.nodes i).term → (v.nodes i).vote = g.cand)
   gc : ∀ i a b, inU v i a → inU v i b → a.term = b.term → a.cand = b.cand
-  el : ∀ p ∈ v.elected, ∃ q, c0.isQuorum q = true ∧ ∀ x ∈ q, (⟨p.1, x, p.2⟩ : Grant) ∈ v.grants
+  el : ∀ p ∈ v.elected, (⟨p.1, p.2, p.2⟩ : Grant) ∈ v.grants ∧
+          ∃ q, c0.isQuorum q = true ∧ ∀ x ∈ q, (⟨p.1, x, p.2⟩ : Grant) ∈ v.grants
   ld : ∀ i, (v.nodes i).role = 2 → ((v.nodes i).term, i) ∈ v.elected ∧
           (v.nodes i).dterm = (v.nodes i).term ∧ (v.nodes i).dvote = i ∧ (v.nodes i).vote = i ∧ 0 < i
 
@@ -427,8 +428,8 @@ theorem invV_release (h : InvV c0 v) (i k : Nat) (g : Grant) (hg : (v.nodes i).o
     · simpa [updV_other _ _ _ _ hj] using this
   · intro j a b ha hb; exact h.gc j a b (hU j a ha) (hU j b hb)
   · intro p hp
-    obtain ⟨q, hq, hall⟩ := h.el p hp
-    exact ⟨q, hq, fun x hx => List.mem_cons_of_mem _ (hall x hx)⟩
+    obtain ⟨hs, q, hq, hall⟩ := h.el p hp
+    exact ⟨List.mem_cons_of_mem _ hs, q, hq, fun x hx => List.mem_cons_of_mem _ (hall x hx)⟩
   · intro j; by_cases hj : j = i
     · subst hj; simpa using h.ld j
     · simpa [updV_other _ _ _ _ hj] using h.ld j
@@ -524,7 +525,7 @@ theorem invV_win (h : InvV c0 v) (i : Nat) (q : List Nat) (hq : c0.isQuorum q = 
   · intro p hp
     simp only [List.mem_cons] at hp
     rcases hp with hp | hp
-    · subst hp; exact ⟨q, hq, hall⟩
+    · subst hp; exact ⟨hself, q, hq, hall⟩
     · exact h.el p hp
   · intro j; by_cases hj : j = i
     · subst hj
